@@ -128,8 +128,7 @@ class pick_in_chunk_wrapped:
 # ---------------------------------------------------------------------------
 # the concrete per-chunk detectors are numerical (scipy filters, labelling): trusted to return picks with one quaternion
 # and one score each; what they return is then followed through the chunk bookkeeping
-for _key in ("acryo.pick._concrete:LoGPicker.pick_in_chunk", "acryo.pick._concrete:DoGPicker.pick_in_chunk",
-             "acryo.pick._concrete:ZNCCTemplateMatcher.pick_in_chunk"):
+for _key in ("acryo.pick._concrete:LoGPicker.pick_in_chunk", "acryo.pick._concrete:DoGPicker.pick_in_chunk"):
     @contract(_key, props=["C20"])
     class concrete_pick_in_chunk:
         trusted = True
@@ -158,7 +157,20 @@ for shape, cs in [((5, 48, 48), [(2, 12, 12), (2, 34, 30)]), ((48, 48, 48), [(12
     got = sorted(map(tuple, np.round(m.pos).astype(int).tolist()))
     print("image", shape, "particles", cs, "picked at", got)
     ok = ok and got == sorted(cs)
-print("clause holds natively (picks at the particle positions):", ok)
+import dask.array as da
+shape = (40, 48, 48); cs = [(12, 33, 30), (26, 12, 14), (30, 30, 40)]
+img = blob(shape, cs) + 1e-4 * np.sin(np.arange(np.prod(shape)).reshape(shape)).astype(np.float32)
+def picks(x):
+    m = LoGPicker(sigma=2.0).pick_molecules(x, scale=1.0)
+    keep = m.features["score"].to_numpy() > 0.05
+    return sorted(map(tuple, np.round(m.pos[keep]).astype(int).tolist()))
+whole = picks(img)
+ok = ok and whole == sorted(cs)
+for chunks in [(13, 17, 44), (20, 24, 24), (39, 48, 48)]:          # uneven chunkings with short trailing chunks
+    p = picks(da.from_array(img, chunks=chunks))
+    print("chunks", chunks, "->", p, "(one chunk:", whole, ")")
+    ok = ok and p == whole
+print("clause holds natively (picks at the particle positions, for every chunking):", ok)
 print("CONFIRMED" if not ok else "NOT-CONFIRMED"); sys.exit(1 if not ok else 0)
 '''
 
@@ -173,7 +185,7 @@ class pick_molecules:
                   image=_IMG, scale=T.Real(lo=0))
     requires = ["scale > 0", "cls_name(self) != 'LoGPicker' or self._sigma > 0",
                 "cls_name(self) != 'DoGPicker' or (self._sigma_low > 0 and self._sigma_high > self._sigma_low)"]
-    helpers = dict(overlap=overlap, in_core=in_core, cls_name=lambda o: o.cls.name)
+    helpers = dict(overlap=overlap, in_core=in_core, cls_name=lambda o: o.cls.name, smin=V.smin)
     replay = staticmethod(lambda ob, meta, model: _REPLAY_THIN)
     ensures = {
         "global_physical_position":
@@ -182,6 +194,10 @@ class pick_molecules:
             "result._features.cols['score'][k] == self._ghost_score[i], (0, self._ghost_local.shape[0])), "
             "(0, result._pos.shape[0]))",
         "one_feature_row_per_pick": "result._features.n == result._pos.shape[0]",
+        # the blocks are extended by the picker's own overlap depth, limited only by the image size: in particular the
+        # extension does not depend on how the image happens to be chunked
+        "overlap_independent_of_chunking": "all(overlap()['depth'][a] == smin(image.shape[a], called('get_params_and_depth')[1]) "
+                                           "for a in range(3))",
     }
 
 
@@ -200,6 +216,8 @@ class log_params:
     params = dict(self=T.Obj("acryo.pick._concrete:LoGPicker", dict(_sigma=T.Real(lo=0))), scale=T.Real(lo=0))
     requires = ["scale > 0", "self._sigma > 0"]
     helpers = _HP
+    result = lambda interp, bound: ({"sigma": V.fresh("sigma_px", "real")}, V.fresh("depth", "int"))
+    call_ensures = ["sigma_in_pixels", "integer_depth"]
     native_call = "__import__('acryo.pick', fromlist=['x']).LoGPicker(args['self']['_sigma']).get_params_and_depth(args['scale'])"
     native = {"sigma_in_pixels": "abs(result[0]['sigma'] - self['_sigma'] / scale) < 1e-9", "integer_depth": "isinstance(result[1], int) and result[1] >= 1",
               "overlap_covers_dependency_radius": "result[1] >= int(4 * self['_sigma'] / scale + 0.5) + int(np.ceil(self['_sigma'] / scale))"}
@@ -216,12 +234,16 @@ class dog_params:
     params = dict(self=T.Obj("acryo.pick._concrete:DoGPicker", dict(_sigma_low=T.Real(lo=0), _sigma_high=T.Real(lo=0))), scale=T.Real(lo=0))
     requires = ["scale > 0", "self._sigma_low > 0", "self._sigma_high > self._sigma_low"]
     helpers = _HP
+    result = lambda interp, bound: ({"sigma_low": V.fresh("sigma_low_px", "real"), "sigma_high": V.fresh("sigma_high_px", "real")},
+                                    V.fresh("depth", "int"))
+    call_ensures = ["sigmas_in_pixels", "integer_depth"]
     native_call = ("__import__('acryo.pick', fromlist=['x']).DoGPicker(args['self']['_sigma_low'], args['self']['_sigma_high'])"
                    ".get_params_and_depth(args['scale'])")
     native = {"sigmas_in_pixels": "abs(result[0]['sigma_low'] - self['_sigma_low'] / scale) < 1e-9 and abs(result[0]['sigma_high'] - self['_sigma_high'] / scale) < 1e-9",
               "overlap_covers_dependency_radius": "result[1] >= int(4 * self['_sigma_high'] / scale + 0.5) + int(np.ceil(self['_sigma_low'] / scale))"}
     ensures = {
         "sigmas_in_pixels": "result[0]['sigma_low'] == self._sigma_low / scale and result[0]['sigma_high'] == self._sigma_high / scale",
+        "integer_depth": "result[1] >= 1",
         "overlap_covers_dependency_radius": "result[1] >= trunc(4 * self._sigma_high / scale + 0.5) + ceil(self._sigma_low / scale)",
     }
 
@@ -276,3 +298,87 @@ print("clause holds natively:", ok)
 print("CONFIRMED" if not ok else "NOT-CONFIRMED"); sys.exit(1 if not ok else 0)
 ''')
     ensures = {"one_row_per_maximum": "result.ndim == 2 and result.shape[1] == 3"}
+
+
+
+# ---------------------------------------------------------------------------
+# template matching in one chunk: which rotation is reported for a pick, and where
+class TTemplates(TSpec):
+    """the rotated template bank handed to pick_in_chunk: two templates of one (symbolic) shape"""
+
+    def fresh(self, name, path):
+        shp = tuple(V.Sym(z3.Int(f"{name}_shape_{a}")) for a in range(3))
+        for x in shp:
+            path.assume(x >= 1)
+        return [fresh_array(f"{name}_{t}", 3, "real", shape=shp) for t in range(2)]
+
+    def src(self, name, model):
+        return "None"
+
+
+def found(k, a):
+    """ghost: coordinate a of the k-th maximum find_maxima returned (centres of mass of the labelled maxima)"""
+    hits = [r for (n_, r, args, kw) in S.GHOST.get("ndi", []) if n_ == "center_of_mass_list"]
+    return hits[-1].fn(k)[a] if hits else V.fresh("no_maxima", "real")
+
+
+_REPLAY_TM = '''
+import numpy as np
+from scipy.spatial.transform import Rotation
+from scipy import ndimage as ndi
+from acryo.pick import ZNCCTemplateMatcher
+from acryo._utils import compose_matrices
+zz, yy, xx = np.indices((9, 11, 13))
+tmpl = (np.exp(-((zz - 4) ** 2 + (yy - 5) ** 2 / 9.0 + (xx - 6) ** 2 / 25.0) / 2.0)).astype(np.float32)     # elongated along x
+rots = Rotation.from_rotvec([[0, 0, 0], [np.pi / 2, 0, 0]])      # acryo vectors are (z, y, x): identity, quarter turn about z
+img = np.zeros((40, 44, 48), np.float32) + 1e-4 * np.sin(np.arange(40 * 44 * 48).reshape(40, 44, 48)).astype(np.float32)
+truth = [((12, 14, 16), 0), ((26, 28, 30), 1)]
+mats = compose_matrices(np.array(tmpl.shape) / 2 - 0.5, [r.inv() for r in rots])
+for c, k in truth:
+    rt = ndi.affine_transform(tmpl, mats[k], order=1)
+    img[tuple(slice(ci - s // 2, ci - s // 2 + s) for ci, s in zip(c, tmpl.shape))] += rt
+mole = ZNCCTemplateMatcher(tmpl, rotation=rots).pick_molecules(img, scale=1.0, min_distance=4.0, min_score=0.5)
+ok = len(mole) == len(truth)
+for c, k in truth:
+    d = np.linalg.norm(mole.pos - np.array(c), axis=1) if len(mole) else np.array([])
+    j = int(np.argmin(d)) if len(mole) else -1
+    good = j >= 0 and d[j] <= 1.0 and np.allclose(np.abs(mole.rotator[j].as_quat()), np.abs(rots[k].as_quat()), atol=1e-4)
+    print("particle at", c, "rotation", k, "-> nearest pick", None if j < 0 else (np.round(mole.pos[j], 1).tolist(), np.round(mole.rotator[j].as_quat(), 3).tolist()), "ok" if good else "WRONG")
+    ok = ok and good
+try:
+    flat = np.zeros((30, 30, 30), np.float32) + 1e-4 * np.sin(np.arange(27000).reshape(30, 30, 30)).astype(np.float32)
+    n0 = len(ZNCCTemplateMatcher(tmpl, rotation=rots).pick_molecules(flat, scale=1.0, min_distance=4.0, min_score=0.5))
+    print("image without particles:", n0, "picks")
+    ok = ok and n0 == 0
+except Exception as e:
+    print("image without particles: pick_molecules raised", type(e).__name__, e); ok = False
+print("picks:", len(mole), "| clause holds natively:", ok)
+print("CONFIRMED" if not ok else "NOT-CONFIRMED"); sys.exit(1 if not ok else 0)
+'''
+
+
+@contract("acryo.pick._concrete:ZNCCTemplateMatcher.pick_in_chunk", props=["C20"])
+class zncc_pick_in_chunk:
+    """a maximum found at landscape index p is reported at p + (template_shape + 1) / 2 (the centre of the template
+    window whose correlation is landscape value p: the valid-mode landscape is trimmed by one voxel on each side), with
+    the searched rotation whose template scores best at the rounded maximum, and one score per pick"""
+    params = dict(self=T.Obj("acryo.pick._concrete:ZNCCTemplateMatcher", dict(_quaternions=T.Arr(2, "real"))),
+                  image=_IMG, templates=TTemplates(), min_distance=T.Real(lo=0), min_score=T.Real())
+    requires = ["self._quaternions.shape[0] == 2 and self._quaternions.shape[1] == 4",
+                "all(image.shape[a] >= templates[0].shape[a] + 2 for a in range(3))"]
+    helpers = dict(found=found, rnd=V.round_half_even, NCC="acryo.backend._zncc:ncc_landscape_no_pad")
+    replay = staticmethod(lambda ob, meta, model: _REPLAY_TM)
+    ensures = {
+        "one_rotation_and_score_per_pick": "result[1].shape[0] == result[0].shape[0] and result[2]['score'].shape[0] == result[0].shape[0] "
+                                           "and result[0].shape[1] == 3 and result[1].shape[1] == 4",
+        "centre_of_the_template_window": "forall(lambda k: all(result[0][k, a] == found(k, a) + (templates[0].shape[a] + 1) / 2 "
+                                         "for a in range(3)), (0, result[0].shape[0]))",
+        "rotation_is_a_searched_one": "forall(lambda k: exists(lambda r: all(result[1][k, c] == self._quaternions[r, c] for c in range(4)), "
+                                      "(0, 2)), (0, result[0].shape[0]))",
+        # ... namely one whose template scores best at the voxel the maximum rounds to
+        "rotation_of_best_template":
+            "forall(lambda k: exists(lambda r: all(result[1][k, c] == self._quaternions[r, c] for c in range(4)) and "
+            "all(ite(r == 0, called(NCC, 0)[rnd(found(k, 0)), rnd(found(k, 1)), rnd(found(k, 2))], "
+            "called(NCC, 1)[rnd(found(k, 0)), rnd(found(k, 1)), rnd(found(k, 2))]) >= "
+            "called(NCC, t)[rnd(found(k, 0)), rnd(found(k, 1)), rnd(found(k, 2))] for t in range(2)), (0, 2)), (0, result[0].shape[0]))",
+    }
